@@ -55,7 +55,7 @@ def superdiag(s, d, n, dt, g, rotate=True):
 
 def gen_case(rng):
     cls = rng.choices(['lowrank', 'lowrank_noise', 'saturate', 'tie', 'tall', 'random'], [2, 4, 3, 2, 2, 1])[0]
-    dt = rng.choice(['f64', 'f64', 'f64', 'c128', 'f32'])
+    dt = rng.choice(['f64', 'f64', 'f64', 'c128', 'f32', 'c64'])
     p = {'cls': cls, 'dt': dt, 'vseed': rng.getrandbits(31), 'src': rng.choice(['torch', 'torch', 'numpy']),
          'ttm': False, 'shape_arg': rng.random() < 0.3, 'rmax': None}
     if cls in ('lowrank', 'lowrank_noise', 'random'):
@@ -119,7 +119,7 @@ def gen_case(rng):
         p['R'] = [1] + [rng.randint(1, 2) for _ in range(d - 1)] + [1]
         p['eps'] = 10 ** rng.uniform(-8, -1)
         p['noise'] = rng.choice([0.0, 0.5, 2.0])
-    if p['dt'] == 'f32':
+    if p['dt'] in ('f32', 'c64'):
         p['eps'] = max(p.get('eps', 1e-3), 1e-4)
     if p['ttm']:
         p['shape_arg'] = True
